@@ -50,7 +50,12 @@ TCopyUninit == /\ Is("CopyUninit") /\ Step
 MainPathEv == {"OpIn", "Cli", "OpOut", "Worked", "Halt", "OutDone", "InRm", "Sti", "StiDone", "InDone", "Exit", "Cleanup", "Terminate", "BailoutMain", "BailoutSub"}
 TMainPath == l <= Len(TraceLog) /\ Ev.e \in MainPathEv /\ Step /\ UNCHANGED cvars /\ Keep
 
-Next == TMainPath \/ TReset \/ TStart \/ TCopyInit \/ TSrcTake \/ TCopyAvail \/ TSinkPush \/ TSinkPop \/ TSrcRel \/ TCopyWritten
+\* the capacities the code allocated for its deques are the ones the model's capacity invariants assume
+TQueueCaps == /\ Is("QueueCaps") /\ Step
+              /\ Must(("output_q" \in DOMAIN Ev) => Ev.output_q = TotOut, "output_q holds TotOut entries")
+              /\ UNCHANGED cvars /\ Keep
+
+Next == TQueueCaps \/ TMainPath \/ TReset \/ TStart \/ TCopyInit \/ TSrcTake \/ TCopyAvail \/ TSinkPush \/ TSinkPop \/ TSrcRel \/ TCopyWritten
         \/ TEof \/ TCopyTerm \/ TSinkFinish \/ TSinkExit \/ TSrcStop \/ TCopyUninit
 Spec == Init /\ [][Next]_tvars
 NotAccepted == l <= Len(TraceLog)
